@@ -189,6 +189,24 @@ def _digits(ctx) -> None:
         s = re.sub(r"self\._seconds(?!\w)", "S", s)
         ctx.ob("RADIX.digit", f"Duration.{prop}", s == E(want),
                f"{prop} = `{nun(e)}` (canonical `{s}`); must be the mixed-radix digit `{want}` of S = self._seconds", m.loc(fn))
+        # the digit is 0 below its unit; a guard around the assignment may only skip values for which it is 0 anyway
+        unit = {"hours": 3600, "minutes": 60}.get(prop)
+        g = vals[-1]._parent
+        if unit and isinstance(g, ast.If) and vals[-1] in g.body and "is None" not in nun(g.test):
+            t = g.test
+            thr = None
+            if isinstance(t, ast.Compare) and len(t.ops) == 1 and nun(t.left) in ("abs(seconds)", "abs(self._seconds)"):
+                try:
+                    c = core.fold(t.comparators[0], m)
+                    thr = c if isinstance(t.ops[0], ast.GtE) else c + 1 if isinstance(t.ops[0], ast.Gt) else None
+                except Exception:
+                    thr = None
+            if thr is None:
+                ctx.unverified("RADIX.guard", f"Duration.{prop}", f"guard `{nun(t)}`", m.loc(g))
+            else:
+                ctx.ob("RADIX.guard", f"Duration.{prop}", thr <= unit,
+                       f"the digit is only computed when `{nun(t)}` (i.e. from {thr} s on); it is non-zero from {unit} s on, so exactly "
+                       f"{unit} s would report 0 {prop}", m.loc(g))
         first = [nun(v.value) for v in vals[:-1]] + [nun(x) for x in core.assigns_to(fn, "seconds")]
         ok_src = all(x in ("0", "self._seconds") for x in first)
         ctx.ob("RADIX.source", f"Duration.{prop}", ok_src, f"digit computed from {first}; the only source may be self._seconds", m.loc(fn))
@@ -200,12 +218,44 @@ def _digits(ctx) -> None:
         ctx.ob("ACCESSOR", f"Duration.{prop}", len(r) == 1 and nun(r[0].value) == f"self.{attr}", f"{[nun(x.value) for x in r]}", m.rel)
 
 
+def _factory(ctx) -> None:
+    """pendulum.duration(...) is the documented way to build a Duration: every parameter must reach the constructor
+    parameter of the same name, with the same default"""
+    im, dm = pmod("__init__"), pmod("duration")
+    fn = im.func("duration")
+    ctor = dm.func("Duration.__new__")
+    r = core.returns(fn)
+    if len(r) != 1 or not isinstance(r[0].value, ast.Call) or nun(r[0].value.func) != "Duration":
+        ctx.unverified("FACTORY.forward", "pendulum.duration", f"returns {[nun(x.value)[:60] for x in r]}", im.loc(fn))
+        return
+    cps = core.params(ctor)
+    try:
+        bound = core.bind(r[0].value, cps)
+    except core.Unsupported as e:
+        ctx.unverified("FACTORY.forward", "pendulum.duration", str(e), im.loc(fn))
+        return
+    fd, cd = core.defaults(fn), core.defaults(ctor)
+    for p in core.params(fn):
+        got = bound.get(p)
+        ctx.ob("FACTORY.forward", f"pendulum.duration/{p}", got is not None and nun(got) == p,
+               f"constructor parameter {p} receives `{nun(got) if got is not None else None}`; the factory's `{p}` argument must be "
+               f"passed on (a dropped keyword silently builds a shorter duration)", im.loc(r[0]))
+        ctx.ob("FACTORY.defaults", f"pendulum.duration/{p}", nun(fd.get(p)) == nun(cd.get(p)),
+               f"default {nun(fd.get(p))} vs Duration's {nun(cd.get(p))}", im.loc(fn), nontrivial=False)
+    extra = set(cps) - set(core.params(fn))
+    ctx.ob("FACTORY.forward", "pendulum.duration/signature", not extra, f"constructor parameters not offered by the factory: {sorted(extra)}", im.loc(fn), nontrivial=False)
+
+
 def run(ctx) -> None:
     ctx.explanation = EXPLANATION
     _duration_new(ctx)
     _abs_new(ctx)
     _digits(ctx)
+    _factory(ctx)
+    ctx.expect_min("FACTORY.forward", 9)
     C05._totals(ctx)
+    from . import C14
+    C14._duration(ctx)          # 'rebuilding a Duration from its own components reproduces it': the component tuples of copy/pickle
     ctx.expect_min("DIVMOD", 15)
     ctx.expect_min("RADIX", 7)
     ctx.expect_min("UNITS", 8)
